@@ -2,6 +2,7 @@ package main
 
 import (
 	"context"
+	"errors"
 	"fmt"
 
 	vs "verif/shim/vsync"
@@ -489,4 +490,96 @@ func c19SilentPeer(x *X) {
 
 func init() {
 	register(&Scenario{Prop: "C19", Name: "c19/transport-silent-peer", Quick: []Bound{{0, 0}, {1, 0}}, Thorough: []Bound{{2, 0}}, Body: c19SilentPeer, MaxSteps: 200000, BudgetQ: 15})
+}
+
+// contexts that end with a cause (context.WithCancelCause / WithTimeoutCause): CallWithContext
+// returns the context's error - context.Canceled or context.DeadlineExceeded - not the cause; on a
+// Conn and through a Transport.
+func c19Cause(x *X) {
+	via := x.Choose(2)
+	cerr := []error{context.Canceled, context.DeadlineExceeded}[x.Choose(2)]
+	cause := errors.New("the request was superseded")
+	hc := newCtxCause(nil)
+	var err error
+	ret := false
+	var t *trSys
+	var f *fixture
+	if via == 0 {
+		f = newFixture(srvOpts{bufSize: 64}, cliOpts{bufSize: 64})
+		c := newUcall(0x41, fGate, 24, formCallCtx)
+		vs.GoNamed("caller", func() { err = f.conn.CallWithContext(hc, c.method, &c.args, &c.reply); ret = true })
+	} else {
+		t = newTrSys(x, "C19", 1, 1)
+		c := newUcall(0x41, fGate, 24, formCallCtx)
+		vs.GoNamed("caller", func() { err = t.tr.CallWithContext(hc, "a", c.method, &c.args, &c.reply); ret = true })
+	}
+	vs.Quiesce()
+	hc.cancelCause(cerr, cause)
+	vs.Quiesce()
+	if !ret {
+		x.Fail("C19/call-with-context-hangs/cause", "CallWithContext did not return although its context is done")
+	} else if err != cerr {
+		x.Fail("C19/wrong-error/cause", "the context ended with %v (cause: %q): CallWithContext returned %v, want the context's error", cerr, cause.Error(), err)
+	}
+	x.Outcome("via=%d err=%v", via, err)
+	if f != nil {
+		f.w.open(0x41)
+		f.conn.Close()
+		vs.Quiesce()
+	} else {
+		t.w["a"].open(0x41)
+		vs.Quiesce()
+		t.shutdown()
+	}
+}
+
+// a CallWithContext through a Transport whose context ends while the caller is still waiting for a
+// connection (another caller's dial to another address takes long, and the pool is locked while it
+// dials): the call returns (at the latest when the pool is free again), and the call in flight on
+// the pooled connection of its own address, and later calls, are unharmed.
+func c19SlowDialElsewhere(x *X) {
+	cerr := []error{context.Canceled, context.DeadlineExceeded}[x.Choose(2)]
+	t := newTrSys(x, "C19", 1, 1)
+	t.call("a", formCall) // warm connection to a
+	t.longCall("a")
+	t.n.holdDial["b"] = true
+	ob := newUcall(0x51, 0, 20, formCall)
+	vs.GoNamed("caller-b", func() { ob.err = t.tr.Call("b", ob.method, &ob.args, &ob.reply); ob.ret = true })
+	vs.Quiesce()
+	ab := newUcall(0x41, 0, 24, formCallCtx)
+	ab.hctx = newCtx(nil)
+	vs.GoNamed("caller-a", func() {
+		ab.err = t.tr.CallWithContext(ab.hctx, "a", ab.method, &ab.args, &ab.reply)
+		ab.ret = true
+	})
+	vs.Quiesce()
+	ab.hctx.cancel(cerr)
+	vs.Quiesce()
+	t.n.holdDial["b"] = false
+	vs.Quiesce()
+	if !ab.ret {
+		x.Fail("C19/call-with-context-hangs/slow-dial", "Transport.CallWithContext has not returned although its context is done and the pool is free again")
+	} else if !(ab.err == cerr || ab.err == nil && eqBytes(ab.reply, ab.want())) {
+		x.Fail("C19/wrong-error/slow-dial", "Transport.CallWithContext returned %v", ab.err)
+	}
+	if !ob.ret || ob.err != nil {
+		x.Fail("C19/other-address-harmed/slow-dial", "the call to the other address: returned=%v err=%v", ob.ret, ob.err)
+	}
+	t.release()
+	for _, l := range t.long {
+		if !l.c.ret || l.c.err != nil || !eqBytes(l.c.reply, l.c.want()) {
+			x.Fail("C19/later-call-harmed/slow-dial", "the call that was in flight on the pooled connection while a CallWithContext to the same address was abandoned before it had a connection: returned=%v err=%v", l.c.ret, l.c.err)
+		}
+	}
+	vs.Quiesce()
+	if e := t.call("a", formCall); e != nil {
+		x.Fail("C19/later-call-harmed/slow-dial", "a call to the same address afterwards failed: %v", e)
+	}
+	x.Outcome("err=%v ab=%s", cerr, errStr(ab.err))
+	t.shutdown()
+}
+
+func init() {
+	register(&Scenario{Prop: "C19", Name: "c19/contexts-with-cause", Quick: []Bound{{0, 0}, {1, 0}}, Thorough: []Bound{{2, 0}}, Body: c19Cause, MaxSteps: 200000, BudgetQ: 10})
+	register(&Scenario{Prop: "C19", Name: "c19/transport-slow-dial-elsewhere", Quick: []Bound{{0, 0}, {1, 0}}, Thorough: []Bound{{2, 0}}, Body: c19SlowDialElsewhere, MaxSteps: 200000, BudgetQ: 15})
 }
